@@ -13,3 +13,43 @@ VH_GROUP(cmyk8_v) { run_family<Cmyk8, Cmyk8>(ctx); }
 VH_GROUP(cmyk2222_v) { run_family<Cmyk2222, Cmyk2222>(ctx); }
 VH_GROUP(dev5_12345_v) { run_family<Dev5_12345, Dev5_12345>(ctx); }
 VH_MAIN
+
+// Packed pixels whose channel bits do not fill the bit field (rgb555 / bgr555 in uint16_t: bit 15 unused; bgr121 in uint8_t: bits 4..7
+// unused).  "Equality between compatible pixels pairs channels by colour name": pixels whose named colours agree are equal whatever
+// the unused bits hold (they are reachable through the raw bit-field constructor, raw memory, or an assignment that preserves them).
+VH_GROUP(packed_padding)
+{
+    namespace gil = boost::gil; namespace mp = boost::mp11;
+    using P555 = gil::packed_pixel_type<uint16_t, mp::mp_list_c<unsigned, 5, 5, 5>, gil::rgb_layout_t>::type;
+    using B555 = gil::packed_pixel_type<uint16_t, mp::mp_list_c<unsigned, 5, 5, 5>, gil::bgr_layout_t>::type;
+    using P121 = gil::packed_pixel_type<uint8_t, mp::mp_list_c<unsigned, 1, 2, 1>, gil::bgr_layout_t>::type;
+    long fails = 0;
+    auto bad = [&](std::string const& id, const char* sig, std::string const& d) { if (++fails <= 64) ctx.fail(id, sig, d); };
+    for (unsigned a = 0; a < 65536; ++a)
+    {
+        if ((a & 4095) == 0 && !ctx.take()) { a += 4095; continue; }
+        P555 x{uint16_t(a)}, y{uint16_t(a ^ 0x8000u)}, z{uint16_t(a ^ 1u)};
+        ++ctx.evaluations; ++ctx.nontrivial;
+        const std::string id = vh::S() << "rgb555/bits=" << a;
+        if (!(x == y) || (x != y)) bad(id, "equal-colours-but-operator==-false", "the two pixels differ only in the unused bit 15");
+        if (!gil::static_equal(x, y)) bad(id, "equal-colours-but-static_equal-false", "");
+        if ((x == z) || !(x != z)) bad(id, "different-colours-but-operator==-true", "the two pixels differ in the lowest channel bit");
+        // assignment from the other channel order into a pixel whose unused bit is set keeps every named colour; the result equals a fresh copy
+        B555 s; gil::get_color(s, gil::red_t()) = gil::get_color(x, gil::red_t()); gil::get_color(s, gil::green_t()) = gil::get_color(x, gil::green_t()); gil::get_color(s, gil::blue_t()) = gil::get_color(x, gil::blue_t());
+        P555 d{uint16_t(0xFFFF)}; d = s;
+        P555 c(s);
+        if (!(d == s) || !(c == s)) bad(id, "assigned-pixel-not-equal-to-source", "");
+        if (!(d == c)) bad(id, "equal-colours-but-operator==-false", "dst = bgr555 source (unused bit kept) compared with a copy constructed from the same source");
+    }
+    if (ctx.take())
+    {
+        for (unsigned a = 0; a < 256; ++a) for (unsigned b = 0; b < 256; ++b)
+        {
+            P121 x{uint8_t(a)}, y{uint8_t(b)};
+            ++ctx.evaluations; if ((a & 15) == (b & 15) && a != b) ++ctx.nontrivial;
+            const bool same = (a & 15) == (b & 15);
+            if ((x == y) != same || (x != y) == same) bad(vh::S() << "bgr121/bits=" << a << "," << b, same ? "equal-colours-but-operator==-false" : "different-colours-but-operator==-true", "");
+        }
+        ++ctx.witness["packed_pixels_with_unused_bits"];
+    }
+}
